@@ -57,21 +57,21 @@ var configErrorSites = map[string]bool{
 }
 
 var extOrigins = map[string]Origin{
-	"io.ReadFull":            OrigRandom,
-	"crypto/dsa.Sign":        OrigRandom,
-	"crypto/dsa.GenerateKey": OrigRandom,
-	"crypto/dsa.GenerateParameters": OrigRandom,
-	"crypto/aes.NewCipher":   OrigConfig,
-	"errors.New":             OrigConfig,
-	"fmt.Errorf":             OrigConfig,
-	"os.Open":                OrigConfig,
-	"os.OpenFile":            OrigConfig,
-	"(*os.File).Close":       OrigConfig,
-	"strconv.ParseUint":      OrigValidation,
-	"strconv.ParseInt":       OrigValidation,
-	"strconv.Atoi":           OrigValidation,
+	"io.ReadFull":                        OrigRandom,
+	"crypto/dsa.Sign":                    OrigRandom,
+	"crypto/dsa.GenerateKey":             OrigRandom,
+	"crypto/dsa.GenerateParameters":      OrigRandom,
+	"crypto/aes.NewCipher":               OrigConfig,
+	"errors.New":                         OrigConfig,
+	"fmt.Errorf":                         OrigConfig,
+	"os.Open":                            OrigConfig,
+	"os.OpenFile":                        OrigConfig,
+	"(*os.File).Close":                   OrigConfig,
+	"strconv.ParseUint":                  OrigValidation,
+	"strconv.ParseInt":                   OrigValidation,
+	"strconv.Atoi":                       OrigValidation,
 	"(*encoding/base64.Encoding).Decode": OrigValidation,
-	"encoding/hex.Decode":    OrigValidation,
+	"encoding/hex.Decode":                OrigValidation,
 }
 
 func (o *origins) fn(f *ssa.Function) Origin {
